@@ -215,8 +215,37 @@ func (g *Gen) randType() T {
 	}
 }
 
+// shadowName picks the name of a visible variable that is not declared in the current scope, so that
+// a new declaration shadows it (inside functions only: block variables of the main program are globals,
+// where vm.Get by name would be ambiguous for the final-state comparison).
+func (g *Gen) shadowName() string {
+	if g.level < 1 || !g.chance(1, 4) {
+		return ""
+	}
+	mine := map[string]bool{}
+	for _, v := range g.sc.vars {
+		mine[v.name] = true
+	}
+	var cands []string
+	for _, v := range g.visible(func(v *gvar) bool { return v.typ != tFunc }) {
+		if !mine[v.name] && !g.generating[v.name] {
+			cands = append(cands, v.name)
+		}
+	}
+	// parameters and the function's own name live in the function's top scope; a redeclaration in the
+	// first body scope shadows them legally, so no further restriction is needed
+	if len(cands) == 0 {
+		return ""
+	}
+	g.feat("shadowing")
+	return cands[g.pick(len(cands))]
+}
+
 func (g *Gen) declStmt(t T) Stmt {
-	name := g.fresh("v")
+	name := g.shadowName()
+	if name == "" {
+		name = g.fresh("v")
+	}
 	x := g.expr(t, 2)
 	kind := ":="
 	ro := false
